@@ -462,9 +462,9 @@ Lemma meth_call_S f m c ch dn nd at_ n :
         end
       else if cls_eqb c CPermutation then
         match ch, lookup k_validate_args nd with
-        | [ATensor p; ATensor q], Some va =>
-            match ctor defdt c [ATensor p; ATensor q] [(k_validate_args, AOther va)] with
-            | Some (AOp c' ch' dn' nd' at') => Some (AOp c' ch' dn' nd' (perm_attrs d at'), n)
+        | [ATensor _; ATensor _], Some _ =>
+            match again c dn ch nd n with
+            | Some (AOp c' ch' dn' nd' at', n') => Some (AOp c' ch' dn' nd' (perm_attrs d at'), n')
             | _ => None
             end
         | _, _ => None
@@ -905,13 +905,13 @@ Proof.
   rewrite (set_key_same _ _ _ LD). split; [reflexivity|lia].
 Qed.
 
-(* a stored PermutationLinearOperator whose only keyword validate_args is a plain value *)
+(* PermutationLinearOperator.to: rebuilt from the very same arguments, then the nominal dtype is assigned *)
 Lemma branch_to_perm d ch dn nd at_ (n : nat) o' (n' : nat) :
   wfb (AOp CPermutation ch dn nd at_) = true ->
   match ch, lookup k_validate_args nd with
-  | [ATensor p; ATensor q], Some va =>
-      match ctor defdt CPermutation [ATensor p; ATensor q] [(k_validate_args, AOther va)] with
-      | Some (AOp c' ch' dn' nd' at') => Some (AOp c' ch' dn' nd' (perm_attrs d at'), n)
+  | [ATensor _; ATensor _], Some _ =>
+      match again CPermutation dn ch nd n with
+      | Some (AOp c' ch' dn' nd' at', n') => Some (AOp c' ch' dn' nd' (perm_attrs d at'), n')
       | _ => None
       end
   | _, _ => None
@@ -919,26 +919,9 @@ Lemma branch_to_perm d ch dn nd at_ (n : nat) o' (n' : nat) :
   o' = AOp CPermutation ch dn nd (perm_attrs d (dflt CPermutation)) /\ n' = n.
 Proof.
   intros W E. rewrite wfb_op in W. apply andb_prop in W as [NOK _].
-  pose proof (node_ok_parts _ _ _ _ NOK) as P. cbv zeta in P.
-  destruct P as (LEN & NPOS & SD & SN & DJ & DIFF & PKW & KEYS & NORM & BD & HDT).
+  rewrite (again_ok _ _ _ _ _ NOK) in E.
   destruct ch as [|[p| |] [|[q| |] [|? ?]]]; try discriminate E.
-  destruct (lookup k_validate_args nd) as [va|] eqn:LV; [|discriminate].
-  assert (ONE : forall k, In k (dn ++ keys nd) -> k = k_validate_args).
-  { intros k Hk. destruct (KEYS k Hk) as [Hp|[Hv _]]; [|discriminate Hv].
-    revert Hp. unfold pkw_names. simpl. intros [<- | []]; auto. }
-  assert (DN : dn = []).
-  { destruct dn as [|k r]; [reflexivity|]. exfalso.
-    assert (Hin : In k (k :: r)) by now left.
-    pose proof (ONE k (in_or_app _ _ _ (or_introl Hin))) as Ek. subst k.
-    apply (DJ k_validate_args Hin). eapply lookup_in; eauto. }
-  subst dn.
-  change [ATensor p; ATensor q] with (firstn (nargs [ATensor p; ATensor q] []) [ATensor p; ATensor q]) in E at 1.
-  rewrite (ctor_explicit CPermutation [ATensor p; ATensor q] nd [(k_validate_args, AOther va)] NOK) in E.
-  - inversion E; subst. split; reflexivity.
-  - vm_compute. reflexivity.
-  - intros k. simpl. destruct (Z.eqb_spec k k_validate_args) as [->|N]; [now rewrite LV|].
-    destruct (lookup k nd) as [v|] eqn:Lk; [|reflexivity]. exfalso.
-    apply lookup_in in Lk. apply N. apply ONE. exact Lk.
+  destruct (lookup k_validate_args nd); [|discriminate]. inversion E; subst. split; reflexivity.
 Qed.
 
 (* ------------------------------------------------------------------ the theorem *)
